@@ -190,6 +190,144 @@ pub mod n6 {
         v == 0.0 || v < 0.0
     }
 }
+pub mod n7 {
+    fn checked(v: (i32, bool)) -> Option<i32> {
+        if v.1 { None } else { Some(v.0) }
+    }
+    fn negate(v: i32) -> Option<i32> {
+        checked(v.overflowing_neg())
+    }
+    fn add(a: i32, b: i32) -> Option<i32> {
+        checked(a.overflowing_add(b))
+    }
+    /// a - b as a + (-b): -MIN overflows although a - MIN may be representable
+    pub fn ctl_subtract__via_negated_addend(a: i32, b: i32) -> Option<i32> {
+        add(a, negate(b)?)
+    }
+    pub fn ok_subtract__own_primitive(a: i32, b: i32) -> Option<i32> {
+        checked(a.overflowing_sub(b))
+    }
+    pub fn ok_decrement__via_sub(a: i32) -> Option<i32> {
+        a.checked_sub(1)
+    }
+    pub fn ok_absolute_value__via_neg(a: i32) -> Option<i32> {
+        if a < 0 { negate(a) } else { Some(a) }
+    }
+}
+pub mod g3b {
+    use garnish_lang_traits::{GarnishData, GarnishDataType, Instruction, RuntimeError};
+    fn operand<D: GarnishData>(this: &mut D) -> Result<D::Size, RuntimeError<D::Error>> {
+        match this.pop_register()? {
+            Some(v) => Ok(v),
+            None => Err(RuntimeError::unsupported_types()),
+        }
+    }
+    /// answers unit for a char list accessed with a symbol without asking the host
+    pub fn ctl_unit_for_undefined<D: GarnishData>(this: &mut D) -> Result<Option<D::Size>, RuntimeError<D::Error>> {
+        let right = operand(this)?;
+        let left = operand(this)?;
+        match (this.get_data_type(left.clone())?, this.get_data_type(right.clone())?) {
+            (GarnishDataType::List, GarnishDataType::Symbol) => this.push_register(left)?,
+            (GarnishDataType::CharList, GarnishDataType::Symbol) => {
+                let u = this.add_unit()?;
+                this.push_register(u)?
+            }
+            (l, r) => {
+                if !this.defer_op(Instruction::Access, (l, left), (r, right))? {
+                    let u = this.add_unit()?;
+                    this.push_register(u)?
+                }
+            }
+        }
+        Ok(None)
+    }
+    pub fn ok_offers_undefined<D: GarnishData>(this: &mut D) -> Result<Option<D::Size>, RuntimeError<D::Error>> {
+        let right = operand(this)?;
+        let left = operand(this)?;
+        match (this.get_data_type(left.clone())?, this.get_data_type(right.clone())?) {
+            (GarnishDataType::List, GarnishDataType::Symbol) => this.push_register(left)?,
+            (l, r) => {
+                if !this.defer_op(Instruction::Access, (l, left), (r, right))? {
+                    let u = this.add_unit()?;
+                    this.push_register(u)?
+                }
+            }
+        }
+        Ok(None)
+    }
+}
+pub mod w7 {
+    pub struct Block {
+        pub cursor: usize,
+        pub size: usize,
+        pub start: usize,
+    }
+    pub struct Store {
+        pub heap: Vec<u8>,
+        pub a_block: Block,
+        pub b_block: Block,
+    }
+    fn push(heap: &mut Vec<u8>, block: &mut Block, v: u8) -> usize {
+        let index = block.cursor;
+        heap[block.start + index] = v;
+        block.cursor += 1;
+        index
+    }
+    impl Store {
+        fn grow(&mut self, new_a: usize, new_b: usize) {
+            self.heap.resize(new_a + new_b, 0);
+            self.a_block.size = new_a;
+            self.b_block.start = new_a;
+            self.b_block.size = new_b;
+        }
+        pub fn ok_push_checked(&mut self, v: u8) -> usize {
+            if self.a_block.cursor >= self.a_block.size {
+                self.grow(self.a_block.size * 2 + 1, self.b_block.size);
+            }
+            push(&mut self.heap, &mut self.a_block, v)
+        }
+        pub fn ctl_push_unchecked(&mut self, v: u8) -> usize {
+            push(&mut self.heap, &mut self.a_block, v)
+        }
+        pub fn ctl_checks_other_block(&mut self, v: u8) -> usize {
+            if self.b_block.cursor >= self.b_block.size {
+                self.grow(self.a_block.size, self.b_block.size * 2 + 1);
+            }
+            push(&mut self.heap, &mut self.a_block, v)
+        }
+        pub fn ctl_grows_other_block(&mut self, v: u8) -> usize {
+            if self.a_block.cursor >= self.a_block.size {
+                self.grow(self.a_block.size, self.b_block.size * 2 + 1);
+            }
+            push(&mut self.heap, &mut self.a_block, v)
+        }
+        /// one growth step, then the cursor moves by n whatever the new size is
+        pub fn ctl_bulk_single_growth(&mut self, n: usize) -> usize {
+            if self.a_block.cursor + n > self.a_block.size {
+                self.grow(self.a_block.size * 2 + 1, self.b_block.size);
+            }
+            let first = self.a_block.cursor;
+            self.a_block.cursor += n;
+            first
+        }
+        pub fn ok_bulk_loop_growth(&mut self, n: usize) -> usize {
+            while self.a_block.cursor + n > self.a_block.size {
+                self.grow(self.a_block.size * 2 + 1, self.b_block.size);
+            }
+            let first = self.a_block.cursor;
+            self.a_block.cursor += n;
+            first
+        }
+        pub fn ok_bulk_sized_growth(&mut self, n: usize) -> usize {
+            if self.a_block.cursor + n > self.a_block.size {
+                self.grow(self.a_block.cursor + n, self.b_block.size);
+            }
+            let first = self.a_block.cursor;
+            self.a_block.cursor += n;
+            first
+        }
+    }
+}
 pub mod g4c {
     use garnish_lang_traits::{GarnishData, TypeConstants};
     pub fn ctl_no_lower_bound<D: GarnishData>(this: &D, list: D::Size, index: D::Number) -> Result<Option<D::Size>, D::Error> {
